@@ -22,6 +22,10 @@ import (
 	"github.com/bmeg/grip/gripql"
 	vs "github.com/bmeg/grip/verifsched"
 
+	"github.com/bmeg/grip/kvgraph"
+	"google.golang.org/protobuf/types/known/structpb"
+
+	"verif/harness/memkv"
 	"verif/harness/qrun"
 )
 
@@ -68,6 +72,50 @@ func loopBody(stmts []*gripql.GraphStatement, n int, buf int) func() {
 			vs.PreRecv(out, "harness:collect")
 		}
 	}
+}
+
+// fanGraph: hub h -> leaves l0.. -> tails t0.. (one tail per leaf), on kvgraph over memkv.
+func fanGraph(f int) gdbi.GraphInterface {
+	db := kvgraph.NewKVGraph(memkv.New())
+	db.AddGraph("g")
+	gi, _ := db.Graph("g")
+	vsx := []*gdbi.Vertex{{ID: "h", Label: "H", Data: map[string]any{}, Loaded: true}}
+	var es []*gdbi.Edge
+	for i := 0; i < f; i++ {
+		l, t := fmt.Sprintf("l%d", i), fmt.Sprintf("t%d", i)
+		vsx = append(vsx, &gdbi.Vertex{ID: l, Label: "L", Data: map[string]any{}, Loaded: true}, &gdbi.Vertex{ID: t, Label: "T", Data: map[string]any{}, Loaded: true})
+		es = append(es, &gdbi.Edge{ID: "e" + l, From: "h", To: l, Label: "x", Loaded: true}, &gdbi.Edge{ID: "e" + t, From: l, To: t, Label: "x", Loaded: true})
+	}
+	gi.AddVertex(vsx)
+	gi.AddEdge(es)
+	return gi
+}
+
+// loopBodyDB runs stmts through the graph's own compiler and records the id of every emitted row.
+func loopBodyDB(gi gdbi.GraphInterface, stmts []*gripql.GraphStatement, buf int) func() {
+	return func() {
+		pipe, err := gi.Compiler().Compile(stmts, nil)
+		if err != nil {
+			vs.Obs("compile-error:" + err.Error())
+			return
+		}
+		ctx, cancel := context.WithCancel(context.Background())
+		defer cancel()
+		out := pipeline.Start(ctx, pipe, qrun.MemManager{}, buf, nil, cancel)
+		vs.PreRecv(out, "harness:collect")
+		for t := range out {
+			if !t.IsSignal() {
+				vs.Obs(t.GetCurrent().ID)
+			}
+			vs.PreRecv(out, "harness:collect")
+		}
+	}
+}
+
+// freeRun executes a harness body outside the scheduler and returns its observations.
+func freeRun(body func()) []string {
+	r := vs.RunFree(body, 60*time.Second)
+	return r
 }
 
 func c12Scenarios(tier string) []schedScenario {
@@ -158,6 +206,58 @@ func c12Scenarios(tier string) []schedScenario {
 			}
 		}
 		add(fmt.Sprintf("P2c two jumps by counter/N=%d/bound=%d", n, bound), "two-jumps", stmts, n, want, bound, budget)
+	}
+	// P4: more travelers in the cycle at once than the (scaled) ring of buffers holds: the jump queue is what
+	// makes the back edge unbounded, so the loop must still terminate. Channel capacities of the queue are
+	// scaled to 2, inter-stage buffers are 1; the space is far beyond exhaustive reach, so this is a bounded
+	// prefix of the non-preemptive schedules (the cap is reported).
+	for _, n := range []int{16, 32} {
+		if n == 32 && !thorough {
+			continue
+		}
+		stmts := []*gripql.GraphStatement{markS("a"), incS("c"), hasS(gripql.Lt("c", 3.0)), jumpS("a", nil, true)}
+		var want []string
+		for i := 0; i < n; i++ {
+			want = append(want, fmt.Sprintf("v%d/1", i), fmt.Sprintf("v%d/2", i))
+		}
+		sort.Strings(want)
+		maxExec := 600
+		if thorough {
+			maxExec = 20000
+		}
+		out = append(out, schedScenario{Name: fmt.Sprintf("P4 crowded loop/K=3/N=%d/scaled-queue/bound=1", n), Class: "crowded-loop", Want: want, Bound: 1, MaxExec: maxExec, Budget: 150 * time.Second,
+			CapMap: func(c int, site string) int {
+				if c >= 10 {
+					return 1
+				}
+				return c
+			}, Body: loopBody(stmts, n, 1)})
+	}
+	// P5: the documented example loop on a stored graph, with a fan-out INSIDE the cycle (hub -> F leaves ->
+	// F tails): one traveler entering the body becomes F travelers that all return to the mark through the
+	// jump queue while the expanding step is still emitting. All literal capacities are scaled to 2.
+	for _, f := range []int{8, 48, 96} {
+		if f == 96 && !thorough {
+			continue
+		}
+		gi := fanGraph(f)
+		zero, _ := structpb.NewValue(0)
+		stmts := append([]*gripql.GraphStatement{}, gripql.V("h").Statements...)
+		stmts = append(stmts,
+			&gripql.GraphStatement{Statement: &gripql.GraphStatement_Set{Set: &gripql.Set{Key: "count", Value: zero}}},
+			&gripql.GraphStatement{Statement: &gripql.GraphStatement_As{As: "start"}},
+			markS("a"),
+			&gripql.GraphStatement{Statement: &gripql.GraphStatement_Out{Out: &structpb.ListValue{}}})
+		stmts = append(stmts, &gripql.GraphStatement{Statement: &gripql.GraphStatement_Increment{Increment: &gripql.Increment{Key: "$start.count", Value: 1}}},
+			hasS(gripql.Lt("$start.count", 3.0)), jumpS("a", nil, true))
+		body := loopBodyDB(gi, stmts, 1)
+		want := freeRun(body) // the sequential definition: the same body on the free-running code
+		maxExec := 400
+		if thorough {
+			maxExec = 20000
+		}
+		out = append(out, schedScenario{Name: fmt.Sprintf("P5 documented loop with fan-out %d inside the cycle/scaled-caps/bound=1", f), Class: "fan-out-loop", Want: want, Bound: 1, MaxExec: maxExec, Budget: 150 * time.Second,
+			CapMap: scaledCaps, Body: body})
 	}
 	// P3: forward jump: jump(skip, odd, emit=false).increment(c).mark(skip): odd travelers skip the increment
 	for n := 0; n <= 2; n++ {
